@@ -164,7 +164,7 @@ struct CaseResult {
     dir_orders: std::collections::BTreeSet<String>,
 }
 
-fn files_json(files: &Files) -> Value {
+pub fn files_json(files: &Files) -> Value {
     let m: BTreeMap<String, String> =
         files.iter().map(|(k, v)| (k.clone(), String::from_utf8_lossy(v).to_string())).collect();
     json!(m)
